@@ -166,13 +166,26 @@ func LoadCheckpointList(fs storage.FileSystem, dataOwnership kv.DataOwnership, c
 
 	// Merge the checkpoint documents into the first
 	compositeCheckpointDoc, rest := checkpointDocs[0], checkpointDocs[1:]
+	if len(rest) > 0 {
+		// Tables of different DKV instances are ordered relative to each other
+		// only by their sequence numbers: their levels say nothing about which of
+		// them is newer, their key ranges may overlap (instances restored from a
+		// common checkpoint share tables) and the handles come in no particular
+		// order. A level below L0 must be a sorted run of tables that don't
+		// overlap, so all tables go to L0 where every table is consulted and
+		// the highest sequence number wins.
+		for levelIndex := 1; levelIndex < len(compositeCheckpointDoc.Levels); levelIndex++ {
+			compositeCheckpointDoc.Levels[0] = append(compositeCheckpointDoc.Levels[0], compositeCheckpointDoc.Levels[levelIndex]...)
+			compositeCheckpointDoc.Levels[levelIndex] = nil
+		}
+	}
 	for _, doc := range rest {
 		// Merge WAL handles
 		compositeCheckpointDoc.WALs = append(compositeCheckpointDoc.WALs, doc.WALs...)
 
 		// Merge level list
-		for levelIndex, level := range doc.Levels {
-			compositeCheckpointDoc.Levels[levelIndex] = append(compositeCheckpointDoc.Levels[levelIndex], level...)
+		for _, level := range doc.Levels {
+			compositeCheckpointDoc.Levels[0] = append(compositeCheckpointDoc.Levels[0], level...)
 		}
 	}
 
